@@ -336,6 +336,32 @@ func genC17(g *prng.R) c17Case {
 	if g.Chance(1, 5) {
 		act["tag"] = A{M{"type": "Mention", "href": pick(g, alice(), carol())}}
 	}
+	// members the forwarding logic has no use for must arrive unchanged all
+	// the same: hidden recipients a peer left on the activity or on an
+	// embedded object, extension members, ordinary descriptive members
+	if g.Chance(1, 3) {
+		if g.Bool() {
+			if g.Bool() {
+				act["bto"] = dave()
+			} else {
+				act["bto"] = A{dave(), erin()}
+			}
+		}
+		if g.Bool() {
+			act["bcc"] = A{erin()}
+		}
+		if g.Chance(1, 3) {
+			act["x-extension"] = M{"k": A{1, "two", nil}, "bcc": "kept"}
+		}
+		if g.Chance(1, 3) {
+			act["summary"] = "s"
+			act["published"] = "2021-03-04T05:06:07Z"
+		}
+		if om, ok := act["object"].(M); ok && g.Bool() {
+			om["bto"] = A{dave()}
+			om["bcc"] = erin()
+		}
+	}
 	if graphMode && g.Chance(3, 4) {
 		// put the limit where the graph's shortest path to the owned value
 		// ends: the value is then found on the last permitted level, and any
@@ -531,7 +557,7 @@ func init() {
 		}
 		n := 10000
 		if thorough() {
-			n = 80000
+			n = 300000
 		}
 		var jobs []func()
 		for i := 0; i < n; i++ {
